@@ -24,7 +24,7 @@ KEY_FORMS = ["name", "dotted", "tuple", "chain", "rel_dotted", "rel_tuple"]
 
 
 class Node:
-    __slots__ = ("kind", "uid", "name", "children", "tstr", "tobj", "parent", "pyi")
+    __slots__ = ("kind", "uid", "name", "children", "tstr", "tobj", "parent", "pyi", "top_in")
 
     def __init__(self, kind, uid, name):
         self.kind = kind
@@ -35,6 +35,10 @@ class Node:
         self.tobj = None  # alias: uid of object target (as constructed / last retargeted), None if unresolved
         self.parent = None
         self.pyi = False  # module loaded from a stubs file
+        self.top_in = set()  # uids of the collections in which this node has been a top-level module
+
+
+ROOT2_UID = 10**9
 
 
 class Model:
@@ -42,6 +46,7 @@ class Model:
 
     def __init__(self):
         self.root = Node("collection", 0, "")
+        self.root2 = Node("collection", ROOT2_UID, "")  # a second modules collection (modules can be moved over)
         self.detached: list[Node] = []
         self.next_uid = 1
 
@@ -68,7 +73,7 @@ class Model:
             if node.parent.children.get(node.name) is not node:
                 return False
             node = node.parent
-        return node is self.root
+        return node is self.root or node is self.root2
 
     def walk(self, node=None, path=()):
         node = node or self.root
@@ -192,6 +197,7 @@ def generate(rng, opts):
         "preparent": rng.random() < 0.5,
         "inheritance": rng.random() < 0.4,
         "stub_modules": rng.random() < 0.3,
+        "two_collections": rng.random() < 0.25,
     }
     if opts.get("no_moves"):
         swarm["p_detached"] = 0.0
@@ -201,7 +207,7 @@ def generate(rng, opts):
     # Initial modules are inserted by ops too, so that shrinking can remove them.
     for top in TOPS:
         ops.append({"op": "set", "api": "set_member", "form": "name", "on": [], "value": {"new": "module", "name": top}})
-    kinds = [k for k, w in swarm["w"].items() for _ in range(w)]
+    kinds = [k for k, w in swarm["w"].items() for _ in range(w)] + (["transfer"] * 2 if swarm["two_collections"] else [])
     for _ in range(swarm["n_ops"]):
         k = rng.choice(kinds)
         api_set = "set_member" if swarm["producer_only"] or rng.random() < 0.6 else "setitem"
@@ -211,6 +217,12 @@ def generate(rng, opts):
             op = {"op": "set", "api": api_set, "form": rng.choice(KEY_FORMS), "on": on, "value": _gen_value(rng, ex.model, on, swarm)}
         elif k == "del":
             op = {"op": "del", "api": api_del, "form": rng.choice(KEY_FORMS), "path": _gen_path(rng, ex.model)}
+        elif k == "transfer":
+            back = list(ex.model.root2.children)
+            if back and rng.random() < 0.4:
+                op = {"op": "transfer", "name": rng.choice(back), "dir": "back", "api": rng.choice(["set_member", "setitem"])}
+            else:
+                op = {"op": "transfer", "name": rng.choice(TOPS + ["a"]), "dir": "out", "api": rng.choice(["set_member", "setitem"])}
         elif k == "resolve":
             op = {"op": "resolve", "alias": _pick_alias(rng, ex.model), "how": rng.choice(["target", "final_target", "resolve_target"])}
         elif k == "retarget":
@@ -265,6 +277,9 @@ class Executor:
             self.coll = griffe.ModulesCollection()
             self.objs[0] = self.coll
             self.uids[id(self.coll)] = 0
+            self.coll2 = griffe.ModulesCollection()
+            self.objs[ROOT2_UID] = self.coll2
+            self.uids[id(self.coll2)] = ROOT2_UID
 
     # -- construction of values --------------------------------------------------------------
 
@@ -436,6 +451,8 @@ class Executor:
                         m.detached.remove(node)
                     container.children[node.name] = node
                     node.parent = container
+                    if container is m.root:
+                        node.top_in.add(m.root.uid)
                 return
             if "reinsert" in tags:
                 for _, n in m.walk(node, ()):
@@ -447,6 +464,8 @@ class Executor:
                 m.detached.remove(node)
             container.children[node.name] = node
             node.parent = container
+            if container is m.root:
+                node.top_in.add(m.root.uid)
 
         if self.model_only:
             if expect == "ok":
@@ -524,6 +543,37 @@ class Executor:
                     ctx.fail("I5-follow", f"alias {'.'.join(p)} targeted the replaced member {new_path} but does not follow the replacement", tags=t2)
                 elif a.target_path != new_path:
                     ctx.fail("I5-path", f"alias {'.'.join(p)} follows the replacement but reports target path {a.target_path!r} instead of {new_path!r}", tags=alltags)
+
+    def op_transfer(self, op, ctx):
+        """Move a top-level module to the other collection: delete it here, insert it there."""
+        m = self.model
+        src, dst = (m.root, m.root2) if op["dir"] == "out" else (m.root2, m.root)
+        node = src.children.get(op["name"])
+        if node is None or node.kind != "module" or op["name"] in dst.children:
+            if ctx:
+                ctx.log("skip", "nothing to transfer")
+            return
+        del src.children[op["name"]]
+        dst.children[op["name"]] = node
+        node.parent = dst
+        node.top_in.add(dst.uid)
+        if self.model_only:
+            return
+        rsrc, rdst = self.objs[src.uid], self.objs[dst.uid]
+        real = self.objs[node.uid]
+        ctx.steps += 1
+        ctx.log("transfer", (op["name"], op["dir"], op["api"]))
+        try:
+            if op["api"] == "set_member":
+                rsrc.del_member(op["name"])
+                rdst.set_member(op["name"], real)
+            else:
+                del rsrc[op["name"]]
+                rdst[op["name"]] = real
+        except Exception as e:  # noqa: BLE001
+            ctx.fail("I4-op-raised", f"{op} should succeed per model but raised {type(e).__name__}: {e}", exc=e)
+            return
+        ctx.probe("module-moved-to-another-collection")
 
     def op_del(self, op, ctx):
         m = self.model
@@ -728,8 +778,14 @@ class Executor:
     # -- invariants, evaluated after every step ------------------------------------------------
 
     def check(self, ctx):
+        if not self._check_tree(ctx, self.model.root, self.coll, True):
+            return False
+        if self.model.root2.children or self.coll2.members:
+            return self._check_tree(ctx, self.model.root2, self.coll2, False)
+        return True
+
+    def _check_tree(self, ctx, root_node, coll, primary):
         m = self.model
-        coll = self.coll
         g = self.g
 
         def rec(mnode, robj, path):
@@ -763,6 +819,22 @@ class Executor:
                     return False
                 if got is not co or own_path != dotted:
                     ctx.fail("I2-own-path", f"{dotted}: obj.path={own_path!r}; collection.get_member(obj.path) is obj: {got is co}", tags=[f"kind-{cn.kind}"])
+                    return False
+                # ... and the collection the object itself names is the one it hangs in
+                try:
+                    own_coll = co.modules_collection
+                except Exception as e:  # noqa: BLE001
+                    ctx.fail("I2-own-collection", f"{dotted}: obj.modules_collection raised {type(e).__name__}: {e}", exc=e, tags=[f"kind-{cn.kind}"])
+                    return False
+                if own_coll is not coll:
+                    # a module keeps the pointer to the collection it was a top-level module of when it is re-inserted
+                    # below another module (known finding KF3): visible once that module lives in another collection
+                    chain, n = [], cn
+                    while n is not None and n.parent is not None and n.parent.kind != "collection":
+                        chain.append(n)
+                        n = n.parent
+                    stale = any(x.top_in - {root_node.uid} for x in chain)
+                    ctx.fail("I2-own-collection", f"{dotted}: the object names another modules collection than the one it is retrievable from", tags=[f"kind-{cn.kind}"] + (["former-top-level-module-of-another-collection"] if stale else []))
                     return False
                 # (3) dotted / tuple / chained lookups agree
                 try:
@@ -869,9 +941,11 @@ class Executor:
                         return False
             return True
 
-        ok = rec(m.root, coll, [])
+        ok = rec(root_node, coll, [])
         if not ok:
             return False
+        if not primary:
+            return True
         # absent keys raise KeyError
         for probe in (["zz"], ["m1", "zz"], ["m1", "a", "zz"]):
             node, why = m.lookup(probe)
